@@ -398,6 +398,25 @@ def excluded_table(base, dirs, files, patterns_regex):
     return out
 
 
+def harmless_case_exclusions(rng, dirs, files):
+    """Exclusion patterns that differ from names of the tree ONLY in case: patterns are matched character by character, so
+    they exclude nothing (the default __pycache__ pattern is kept)."""
+    names = {p[-1] for p in list(dirs) + list(files)}
+    cands = sorted(n for n in names if n.swapcase() != n and n.swapcase() not in names)
+    if not cands:
+        return None
+    pick = rng.sample(cands, min(len(cands), 2))
+    pats = ["*__pycache__*"]
+    for n in pick:
+        pats.append(rng.choice(["*" + n.swapcase() + ".py", "*/" + n.swapcase(), "*" + n.swapcase() + "*"]))
+    # a pattern may still hit another name of the tree by accident (e.g. *A* and 'bA'): only keep patterns that match no path text
+    import re as _re
+    conv = rules.partial_match_converter()
+    texts = ["/" + "/".join(p) for p in dirs] + ["/" + "/".join(p) + (".py" if files[p]["py"] else ".txt") for p in files]
+    pats = [pt for pt in pats if pt == "*__pycache__*" or not any(_re.match(conv(pt), "/dev/shm/0/0" + t) for t in texts)]
+    return tuple(pats) if len(pats) > 1 else None
+
+
 def import_statements(body):
     """the import statements of a file at any nesting depth"""
     out = []
